@@ -634,7 +634,8 @@ theorem received_attest {now : Nat} {s : Node} {p : Key} {msg : Msg} {order : Li
       simp only [Bool.and_eq_true] at hc
       obtain ⟨m, hm, j, s', h1, h2, h3, h4, h5⟩ := signLoop_attest _ _ _ _ _ _ ho
       injection h1 with h1a h1b
-      exact ⟨h1a, hc.1, m, j, s', hm, h1b.symm, h2, h3, by rw [h4, hfr.1], by rw [hfr.2.1] at h5; exact h5⟩
+      exact ⟨h1a, by simpa [Gen.signNeedsCorrect] using hc.1, m, j, s', hm, h1b.symm, h2, h3, by rw [h4, hfr.1],
+             by rw [hfr.2.1] at h5; exact h5⟩
     · simp at ho
   simp only [receivedDisclosure] at h
   split at h
